@@ -45,6 +45,7 @@ type patObs struct {
 	TMS      string   `json:"tms,omitempty"`
 	RE       string   `json:"re,omitempty"`
 	Panic    string   `json:"panic,omitempty"`
+	Unstable []int    `json:"unstable,omitempty"` // inputs on which a second pass (other order) answers differently
 }
 
 func coqRunes(rs []rune) string {
@@ -407,6 +408,13 @@ func observe(i int, pat string, rng *rand.Rand, withInputs bool) patObs {
 		c[k] = re.Match(in)
 	}
 	o.TM, o.TMS, o.RE = bits(a), bits(b), bits(c)
+	// a compiled pattern is used many times: a second pass in the other order, string entry point first, must repeat the answers
+	for k := len(o.Inputs) - 1; k >= 0; k-- {
+		in := o.Inputs[k]
+		if tm.MatchString(string(in)) != b[k] || tm.Match(in) != a[k] {
+			o.Unstable = append(o.Unstable, k)
+		}
+	}
 	return o
 }
 
